@@ -49,11 +49,12 @@ tag-24 item whose digest, under the MSO's algorithm and taken over the item exac
 equals the MSO's valueDigests entry for that namespace and the item's digestID. -/
 theorem C04_wire_digest_check_sound (doc mso is : Cbor) (nss : List (Cbor × Cbor)) (ns : Cbor) (items : List Cbor) (it : Cbor)
     (h : digestsMatch doc mso = true)
-    (his : mget doc (ResponseFacts.tx "issuerSigned") = some is) (hns : mget is (ResponseFacts.tx "nameSpaces") = some (.map nss))
+    (his : fget doc "issuerSigned" = some is) (hns : fget is "nameSpaces" = some (.map nss))
     (hmem : (ns, .array items) ∈ nss) (hit : it ∈ items) :
-    ∃ b iv id vdm want, it = .tag 24 (.bytes b) ∧ decodeValue b = some iv ∧ mget iv (ResponseFacts.tx "digestID") = some id ∧
-      ((mget mso (ResponseFacts.tx "valueDigests")).bind fun v => mget v ns) = some vdm ∧ mget vdm id = some (.bytes want) ∧
-      want = hashWith ((mget mso (ResponseFacts.tx "digestAlgorithm")).getD (.simple 22)) (Cbor.enc it) := by
+    ∃ nsb b iv id vdm want, ns = .text nsb ∧ it = .tag 24 (.bytes b) ∧ decodeValue b = some iv ∧ fget iv "digestID" = some id ∧
+      ((∃ n, id = .uint n) ∨ (∃ n, id = .nint n)) ∧
+      ((fget mso "valueDigests").bind fun v => mget v ns) = some vdm ∧ mget vdm id = some (.bytes want) ∧
+      want = hashWith ((fget mso "digestAlgorithm").getD (.simple 22)) (Cbor.enc it) := by
   unfold digestsMatch at h
   simp only [his, hns, List.all_eq_true] at h
   have h1 := h (ns, .array items) hmem
@@ -70,21 +71,39 @@ theorem C04_wire_digest_check_sound (doc mso is : Cbor) (nss : List (Cbor × Cbo
         | none => simp [hd] at h2
         | some iv =>
           simp only [hd] at h2
-          cases hid : mget iv (ResponseFacts.tx "digestID") with
+          cases hid : fget iv "digestID" with
           | none => simp [hid] at h2
           | some id =>
-            cases hvd : ((mget mso (ResponseFacts.tx "valueDigests")).bind fun v => mget v ns) with
-            | none => simp [hid, hvd] at h2
-            | some vdm =>
-              simp only [hid, hvd] at h2
-              cases hw : mget vdm id with
-              | none => simp [hw] at h2
-              | some w =>
-                cases w with
-                | bytes want =>
-                  simp only [hw] at h2
-                  exact ⟨b, iv, id, vdm, want, rfl, hd, hid, rfl, hw, by simpa using h2⟩
-                | _ => simp [hw] at h2
+            cases ns with
+            | text nsb =>
+              simp only [hid] at h2
+              cases hvd : ((fget mso "valueDigests").bind fun v => mget v (.text nsb)) with
+              | none => simp [hvd] at h2
+              | some vdm =>
+                simp only [hvd] at h2
+                cases id with
+                | uint n =>
+                  simp only at h2
+                  cases hw : mget vdm (.uint n) with
+                  | none => simp [hw] at h2
+                  | some w =>
+                    cases w with
+                    | bytes want =>
+                      simp only [hw] at h2
+                      exact ⟨nsb, b, iv, _, vdm, want, rfl, rfl, hd, hid, Or.inl ⟨n, rfl⟩, rfl, hw, by simpa using h2⟩
+                    | _ => simp [hw] at h2
+                | nint n =>
+                  simp only at h2
+                  cases hw : mget vdm (.nint n) with
+                  | none => simp [hw] at h2
+                  | some w =>
+                    cases w with
+                    | bytes want =>
+                      simp only [hw] at h2
+                      exact ⟨nsb, b, iv, _, vdm, want, rfl, rfl, hd, hid, Or.inr ⟨n, rfl⟩, rfl, hw, by simpa using h2⟩
+                    | _ => simp [hw] at h2
+                | _ => simp at h2
+            | _ => simp [hid] at h2
       · simp [ht] at h2
     | _ => simp at h2
   | _ => simp at h2
@@ -218,15 +237,15 @@ signed data. -/
 theorem C04_reported_value_is_signed (doc mso is : Cbor) (m : List (Cbor × Cbor))
     (nss : List (Bytes × List (Bytes × Cbor))) (ns : Bytes) (obj : List (Bytes × RJson)) (id : Bytes) (j : RJson)
     (hd : digestsMatch doc mso = true)
-    (his : mget doc (ResponseFacts.tx "issuerSigned") = some is) (hns : mget is (ResponseFacts.tx "nameSpaces") = some (.map m))
+    (his : fget doc "issuerSigned" = some is) (hns : fget is "nameSpaces" = some (.map m))
     (hx : namespacesOf (.map m) = some nss) (hr : (ns, obj) ∈ report nss) (hj : (id, j) ∈ obj) :
     ∃ itemsC it b iv v did vdm want,
       (Cbor.text ns, Cbor.array itemsC) ∈ m ∧ it ∈ itemsC ∧ it = .tag 24 (.bytes b) ∧ decodeValue b = some iv ∧
-      mget iv (ResponseFacts.tx "elementIdentifier") = some (.text id) ∧ mget iv (ResponseFacts.tx "elementValue") = some v ∧
+      fget iv "elementIdentifier" = some (.text id) ∧ fget iv "elementValue" = some v ∧
       reportValue v = some j ∧
-      mget iv (ResponseFacts.tx "digestID") = some did ∧
-      ((mget mso (ResponseFacts.tx "valueDigests")).bind fun vd => mget vd (.text ns)) = some vdm ∧ mget vdm did = some (.bytes want) ∧
-      want = hashWith ((mget mso (ResponseFacts.tx "digestAlgorithm")).getD (.simple 22)) (Cbor.enc it) := by
+      fget iv "digestID" = some did ∧ ((∃ n, did = .uint n) ∨ (∃ n, did = .nint n)) ∧
+      ((fget mso "valueDigests").bind fun vd => mget vd (.text ns)) = some vdm ∧ mget vdm did = some (.bytes want) ∧
+      want = hashWith ((fget mso "digestAlgorithm").getD (.simple 22)) (Cbor.enc it) := by
   obtain ⟨_, items, v, hl, hv, hrv⟩ := C04_reported_is_disclosed_item nss ns obj id j hr hj
   -- the namespace and the item as sent
   simp only [namespacesOf] at hx
@@ -241,21 +260,21 @@ theorem C04_reported_value_is_signed (doc mso is : Cbor) (m : List (Cbor × Cbor
     obtain ⟨itemsC, hm, hio⟩ := mem_namespaceEntries m r he ns items hmem
     obtain ⟨it, hit, hitem⟩ := mem_itemsOf itemsC items hio (id, v) hv
     -- the digest of that item
-    obtain ⟨b, iv, did, vdm, want, hb, hdec, hdid, hvd, hw, hwant⟩ :=
+    obtain ⟨_, b, iv, did, vdm, want, _, hb, hdec, hdid, hint, hvd, hw, hwant⟩ :=
       C04_wire_digest_check_sound doc mso is m (.text ns) itemsC it hd his hns hm hit
     subst hb
     simp only [itemOf, hdec] at hitem
-    cases hid : mget iv (ResponseFacts.tx "elementIdentifier") with
+    cases hid : fget iv "elementIdentifier" with
     | none => simp [hid] at hitem
     | some idc =>
-      cases hev : mget iv (ResponseFacts.tx "elementValue") with
+      cases hev : fget iv "elementValue" with
       | none => cases idc <;> simp [hid, hev] at hitem
       | some v' =>
         cases idc with
         | text idb =>
           simp only [hid, hev, Option.some.injEq, Prod.mk.injEq] at hitem
           obtain ⟨rfl, rfl⟩ := hitem
-          exact ⟨itemsC, _, b, iv, v', did, vdm, want, hm, hit, rfl, hdec, hid, hev, hrv, hdid, hvd, hw, hwant⟩
+          exact ⟨itemsC, _, b, iv, v', did, vdm, want, hm, hit, rfl, hdec, hid, hev, hrv, hdid, hint, hvd, hw, hwant⟩
         | _ => simp [hid, hev] at hitem
 
 end EndToEnd
